@@ -21,8 +21,9 @@ def scenario_files(kinds, classes, model, label='t', paths=None, sizes=None, sym
             # equal classes share one symbolic size (named after the first file of the class)
             first = classes.index(classes[i])
             size = sizes[first] if sizes else model.get('%ssize%d' % (label, first), 0)
+            # (the model's files are owned by a named user and a group without a name)
             files.append({'path': p, 'kind': 'File', 'content_len': size, 'content_class': classes[i], 'mtime': mt,
-                          'mode': model.get('%smode%d' % (label, i), 0o644) | 0o400})
+                          'mode': model.get('%smode%d' % (label, i), 0o644) | 0o400, 'group_unnamed': True})
         elif k == 'D':
             files.append({'path': p, 'kind': 'Dir', 'mtime': mt, 'mode': model.get('%smode%d' % (label, i), 0o755) | 0o700})
         elif k == 'S':
@@ -161,6 +162,10 @@ def reproduced(kind, out, bad):
         # what a restore shows, or what an independent decoding of the newest band's index says about the recorded mtimes
         want = {f['path']: f.get('mtime') for f in scenario_from(bad).get('files', []) if f.get('mtime')}
         rec_wrong = any(r[0] in want and [r[1], r[2]] != list(want[r[0]]) for r in out.get('recorded_mtimes') or [])
+        if any('owner recorded' in p for p in bad.get('problems', [])):
+            # the independent decoding shows a file whose user has a name recorded without it
+            half = {f['path'] for f in scenario_from(bad).get('files', []) if f.get('group_unnamed')}
+            return any(r[0] in half and len(r) > 3 and r[3] is None for r in out.get('recorded_mtimes') or [])
         return rec_wrong or any(v.get('differences') or v.get('restore_errors') for v in versions)
     return False
 
